@@ -1178,12 +1178,17 @@ type snap struct {
 	supply  *big.Int
 	base    *big.Int
 	gminDec *big.Int
+	allSup  sdk.Coins // total supply of every denomination
 }
 
 func (w *world) snapshot(ctx sdk.Context, addrs []common.Address) *snap {
 	s := &snap{addrs: addrs, supply: w.c.Supply(ctx, w.c.Denom()), base: w.c.BaseFee(ctx), bal: map[common.Address]*big.Int{}, seq: map[common.Address]uint64{},
 		exists: map[common.Address]bool{}, code: map[common.Address]common.Hash{}}
 	s.gminDec = w.c.App.FeeMarketKeeper.GetParams(ctx).MinGasPrice.BigInt()
+	w.c.App.BankKeeper.IterateTotalSupply(ctx, func(coin sdk.Coin) bool {
+		s.allSup = s.allSup.Add(coin)
+		return false
+	})
 	for _, a := range addrs {
 		s.bal[a] = w.c.EvmBal(ctx, a)
 		s.seq[a] = w.c.Nonce(ctx, a)
@@ -1667,6 +1672,10 @@ func TestDriverBlocks(t *testing.T) {
 				if len(o.delta) != 0 || o.minted.Sign() != 0 || o.burned.Sign() != 0 {
 					side.Hit("C05/blocks/rejected-tx-moves-coins", "a rejected transaction has bank events", desc)
 				}
+				if o.GU != 0 && o.Class == "REJ" {
+					side.Hit("C05/blocks/rejected-tx-uses-gas", fmt.Sprintf("a transaction rejected at admission reports gas used %d", o.GU), desc)
+				}
+				side.Count(fmt.Sprintf("rejected-tx-events:%d", len(tr.Events)))
 			default:
 				side.Hit("C05/blocks/unclassified-result", "result class "+o.Class, desc)
 			}
@@ -1742,6 +1751,11 @@ func TestDriverBlocks(t *testing.T) {
 			side.Hit("C04/blocks/supply-increased", fmt.Sprintf("total supply grew by %s over the block", dSupply), bdesc(nil))
 		} else if new(big.Int).Neg(dSupply).Cmp(burnTotal) != 0 {
 			side.Hit("C04/blocks/block-supply-delta-not-minus-burns", fmt.Sprintf("supply changed by %s, explicitly destroyed %s", dSupply, burnTotal), bdesc(nil))
+		}
+		for _, coin := range post.allSup { // "for every denomination the total supply after ... is at most the supply before"
+			if coin.Amount.GT(pre.allSup.AmountOf(coin.Denom)) {
+				side.Hit("C04/blocks/supply-increased", fmt.Sprintf("total supply of %s grew from %s to %s over the block", coin.Denom, pre.allSup.AmountOf(coin.Denom), coin.Amount), bdesc(nil))
+			}
 		}
 		if post.bal[w.evmModule].Sign() != 0 {
 			side.Hit("C04/blocks/evm-module-balance-nonzero", fmt.Sprintf("EVM module account holds %s after the block", post.bal[w.evmModule]), bdesc(nil))
